@@ -439,4 +439,47 @@ theorem gen_bytes_slice (dbg : Bool) (s : Str) (i j : USz) :
   rw [← h, ← get_range_eq]
   rfl
 
+/-! ## the script-visible built-ins: basic.rs closure (generated) ∘ string.rs body (generated) -/
+
+/-- `u64 → usize` never fails on a 64-bit target and keeps the value -/
+theorem try_into_u64' (a : U64) : (RInt.try_into a : Option (RInt false 64)) = some ⟨a.bv⟩ := by
+  have h := a.bv.isLt
+  unfold RInt.try_into RInt.inRange RInt.minVal RInt.maxVal
+  simp only [RInt.val, Bool.false_eq_true, ↓reduceIte]
+  have h1 : (0 : Int) ≤ (a.bv.toNat : Int) := by omega
+  have h2 : (a.bv.toNat : Int) ≤ 2 ^ 64 - 1 := by omega
+  simp only [h1, h2, decide_true, Bool.and_self, ↓reduceIte, RInt.ofInt, BitVec.ofInt_natCast,
+    BitVec.ofNat_toNat, BitVec.setWidth_eq]
+
+theorem try_into_u64 (a : U64) : (RInt.try_into a : Option USz) = some ⟨a.bv⟩ := try_into_u64' a
+
+theorem u64_toNat (a : U64) : (⟨a.bv⟩ : USz).toNat = a.toNat := by simp [toNat_bv]
+
+/-- the script-visible `chars().slice(start, end)` (basic.rs closure + string.rs body, both generated) -/
+theorem gen_builtin_chars_slice (dbg : Bool) (s : Str) (i j : U64) :
+    bind_StringChars_slice dbg s i j =
+      .ok ((Strings.specCharsSlice s.chars i.toNat j.toNat).map Str.mk) := by
+  simp only [bind_StringChars_slice, RQ.bind, try_into_u64, gen_chars_slice, u64_toNat]
+
+theorem gen_builtin_chars_get (dbg : Bool) (s : Str) (i : U64) :
+    bind_StringChars_get dbg s i = .ok (Strings.specCharsGet s.chars i.toNat) := by
+  simp only [bind_StringChars_get, RQ.bind, try_into_u64, gen_chars_get, u64_toNat]
+
+theorem gen_builtin_bytes_slice (dbg : Bool) (s : Str) (i j : U64) :
+    bind_StringBytes_slice dbg s i j =
+      .ok ((Strings.specBytesSlice s.chars i.toNat j.toNat).map Str.mk) := by
+  simp only [bind_StringBytes_slice, RQ.bind, try_into_u64, gen_bytes_slice, u64_toNat]
+
+theorem gen_builtin_bytes_get (dbg : Bool) (s : Str) (i : U64) :
+    bind_StringBytes_get dbg s i = .ok (Strings.specBytesGet s.chars i.toNat) := by
+  simp only [bind_StringBytes_get, RQ.bind, try_into_u64, gen_bytes_get, u64_toNat]
+
+theorem gen_builtin_lines_slice (dbg : Bool) (s : Str) (i j : U64) :
+    bind_StringLines_slice dbg s i j =
+      (Strings.linesSlice s.chars i.toNat j.toNat).map' (Option.map Str.mk) := by
+  simp only [bind_StringLines_slice, RQ.bind, try_into_u64, gen_lines_slice_is_model, u64_toNat]
+
+theorem gen_builtin_lines_get (dbg : Bool) (s : Str) (i : U64) :
+    bind_StringLines_get dbg s i = .ok (Strings.linesGet s.chars i.toNat) := by
+  simp only [bind_StringLines_get, RQ.bind, try_into_u64, gen_lines_get, u64_toNat]
 end RotoV.StringsGen
